@@ -4,7 +4,7 @@ from .. import xengine
 
 NAMES = ['h_e_gnm', 'h_e_gnd', 'h_e_gnp', 'h_e_grid', 'h_e_complete_empty', 'h_e_modifiers_0', 'h_e_modifiers_1', 'h_e_modifiers_2',
          'h_e_glrm', 'h_e_glrd', 'h_e_regular', 'h_e_glrp', 'h_e_shift', 'h_e_bip_fixed', 'h_e_bip_plant', 'h_e_bip_addedges',
-         'h_e_dag', 'h_e_tokens', 'h_e_save', 'h_e_adversarial']
+         'h_e_dag', 'h_e_tokens', 'h_e_save', 'h_e_adversarial', 'h_e_regular_deadend']
 
 
 def replay(case):
@@ -29,7 +29,7 @@ def run(tier):
         'deterministic adversarial draw streams (slowly varying values that make the retry loops give up).')
     run.bounds = ['gnm n<=3,m<=4; gnd n<=4 (all shuffles for (2,1),(3,2),(4,1)); gnp n<=3; grid/torus <=3 dims with sides <=4; glrm (<=2)x(<=3); glrd/shift <=3x3(4x4); regular <=2x2 exhaustively',
                   'tape: 2-8 non-trivial draws per run (runs needing more are cut)', 'adversarial streams: 20 requests up to 6 vertices / 4x4 sides x 6 streams']
-    run.bounds += ['save specs include complete bipartite graphs']
+    run.bounds += ['save specs include complete bipartite graphs', "'regular' for 10 (L,R,d) incl. R not dividing L (up to 8x12, d=9) under 6 periodic draw streams whose period is one dead-ending attempt of the real sampler: whatever graph is returned is biregular (running out of draws or stack, or an error, is no verdict)", 'adversarial streams also on regular 2x4, 3x6, 4x6, 6x4, 6x9, 9x6']
     run.outside = ['regular: "regular on both sides for EVERY random outcome" beyond 2x2 - only the adversarial streams reach the fallback there', 'larger graphs', 'the internals of the networkx generators (their loops are explored only through the stub)']
     run.assumptions = ['RNG stub contract (random() in {0.0, 0.3, 0.9}; choice/sample/shuffle/randint arbitrary)', 'stub: cnfgen.graphs.open -> in-memory file for save']
     T = 400 if tier == 'quick' else 1500
